@@ -316,7 +316,7 @@ FAMILIES = [
            desc='SliceDataset over an arbitrary valid index vector (input length <= 3)'),
     Family('L1_slice_ab', body_slice_ab, ['form'], INTS('l0', 'a', 'b', 'i'), lambda t, s: [(f,) for f in U.SLICE_FORMS], timeout=dict(quick=240, thorough=600),
            desc='SliceDataset over slice(a, b, step), unbounded bounds and index'),
-    Family('L2_index', body_index, ['backing', 'n', 'ops'], U.POOL_PARAMS + [('i', 'int')], _l2_conditions, timeout=dict(quick=150, thorough=300),
+    Family('L2_index', body_index, ['backing', 'n', 'ops'], U.POOL_PARAMS + [('i', 'int')], _l2_conditions, timeout=dict(quick=300, thorough=300),
            desc='whole pipelines: len == #iterated; ds[i] == i-th iterated / IndexError for one symbolic i'),
     Family('L2_npint', body_npint, ['backing', 'n', 'ops', 'i'], U.POOL_PARAMS, _np_conditions, timeout=60, desc='numpy integer index types'),
 ]
